@@ -76,6 +76,9 @@ def run(ck, n_cases, shards=8):
     with concurrent.futures.ThreadPoolExecutor(max_workers=shards) as ex:
         for rc, lines, err in ex.map(one, files):
             impl.update(vf.by_id(lines))
+    # every case ends with the termination of all its actors: a process of the harness' session that is still there when the
+    # harness has exited is a script or service the real code did not take down (C10 / C11)
+    left_behind = [(sf, vf.LEFTOVER.get(sf, 0)) for sf in files if vf.LEFTOVER.get(sf, 0)]
     mf = os.path.join(d, 'model.txt')
     with open(mf, 'w') as f:
         for cid in ids:
@@ -126,5 +129,10 @@ def run(ck, n_cases, shards=8):
             bad.append({'case': case_line(cid, c), 'logged_flow': r, 'model_verdict': m,
                         'replay': 'ZINOMA_VERIF=evflow on the case line, then runner mode evflow on the line extended with status, '
                                   'the logged events and the logged outputs'})
+    for sf, nleft in left_behind:
+        bad.append({'case': 'the cases of ' + os.path.basename(sf) + ': ' + ' | '.join(case_line(c, cases[c]) for c in ids[int(os.path.basename(sf)[5:-4])::shards])[:1500],
+                    'logged_flow': '', 'model_verdict': 'PROCESSES-LEFT-BEHIND: %d process(es) spawned by the real actors were still alive after '
+                                                        'every actor of every case had been terminated and the harness had exited' % nleft,
+                    'replay': 'ZINOMA_VERIF=evflow on these case lines; list the processes of the session afterwards'})
     vf.sh(['rm', '-rf', d])
     return bad
